@@ -146,47 +146,190 @@ def matches_known(pid: str, viol: dict, known: list[dict]):
 
 
 
+# ------------------------------------------------------------------------------------------ cones, verdict of the Lean back end
+ALLOWED_AXIOMS = {"propext", "Classical.choice", "Quot.sound"}
+DECL_RE = re.compile(r"\s*(?:@\[[^\]]*\]\s*)*(?:(?:private|protected|noncomputable|partial|unsafe)\s+)*"
+                     r"(theorem|lemma|def|abbrev|instance|structure|inductive|class|example|opaque)\b\s*([^\s({\[:]*)")
+
+
+def decl_index(module: str) -> list[tuple[int, str]]:
+    """(line number, fully qualified name) of every named declaration of a Lean module, in file order"""
+    path = leanbuild.module_path(module)
+    ns: list[str] = []
+    out = []
+    for i, line in enumerate(open(path).read().splitlines(), 1):
+        m = re.match(r"\s*namespace\s+([A-Za-z0-9_.]+)", line)
+        if m:
+            ns.append(m.group(1))
+            continue
+        m = re.match(r"\s*end\s+([A-Za-z0-9_.]+)\s*$", line)
+        if m and ns and ns[-1] == m.group(1):
+            ns.pop()
+            continue
+        m = DECL_RE.match(line)
+        if m:
+            name = m.group(2)
+            if not name or m.group(1) == "example":
+                out.append((i, "<anonymous at %s:%d>" % (module, i)))
+            else:
+                out.append((i, name[7:] if name.startswith("_root_.") else ".".join(ns + [name])))
+    return out
+
+
+def failed_decls(module: str, res) -> list[str]:
+    """qualified names of the declarations of `module` in which Lean reported an error"""
+    idx = decl_index(module)
+    base = os.path.basename(leanbuild.module_path(module))
+    names = []
+    for m in re.finditer(r"^(.*?\.lean):(\d+):(\d+): error", res.output, re.M):
+        if os.path.basename(m.group(1)) != base:
+            continue
+        ln = int(m.group(2))
+        cand = [n for (l, n) in idx if l <= ln]
+        n = cand[-1] if cand else f"<module {module}>"
+        if n not in names:
+            names.append(n)
+    return names or [f"<module {module}>"]
+
+
+def lean_probe(import_mods: list[str], top: list[str], wit: list[str], thms: list[str], workdir: str, tag: str):
+    """one Lean run over the built modules: the dependency cone of the property-level theorems and what the witnesses need in addition
+    (`#cone`, lean/Tools/Cone.lean), and `#print axioms` of every theorem.
+    Returns ({"missing": names that do not exist, "top": cone, "wit": additional cone of the witnesses}, axioms, output)"""
+    os.makedirs(workdir, exist_ok=True)
+    path = os.path.join(workdir, f"Probe_{tag}_{sha(','.join(import_mods + top + wit + thms))[:12]}.lean")
+    src = "import Tools.Cone\n" + "\n".join(f"import {m}" for m in import_mods) + "\n"
+    src += "#cone [" + " ".join(top) + "] [" + " ".join(wit) + "]\n"
+    src += "\n".join(f"#print axioms {t}" for t in thms) + "\n"
+    open(path, "w").write(src)
+    env = dict(os.environ, LEAN_PATH=leanbuild.OLEAN)
+    p = subprocess.run(["lean", path], capture_output=True, text=True, env=env, timeout=1800)
+    text = p.stdout + p.stderr
+    got = {m.group(1): m.group(2).split() for m in re.finditer(r"^(?:.*?info: )?cone (missing|top|wit):(.*)$", text, re.M)}
+    cones = {"missing": got.get("missing", top + wit if "top" not in got else []), "top": got.get("top", []), "wit": got.get("wit", [])}
+    ax: dict[str, list[str]] = {}
+    for m in re.finditer(r"^'(\S+)' depends on axioms: \[([^\]]*)\]", text, re.S | re.M):
+        ax[m.group(1)] = [a.strip() for a in m.group(2).replace("\n", " ").split(",") if a.strip()]
+    for m in re.finditer(r"^'(\S+)' does not depend on any axioms", text, re.M):
+        ax[m.group(1)] = []
+    return cones, ax, text
+
+
+def load_recorded_cones() -> dict:
+    path = os.path.join(VERIF, "vlib", "cones.json")
+    return json.load(open(path)) if os.path.exists(path) else {}
+
+
+def lean_verdict(pid: str, build_mods: list[str], top: list[str], wit: list[str], res: dict, workdir: str, tag: str) -> dict:
+    """Decide the Lean part of a property from the (error-tolerant) build results `res`.
+    The obligations of a property are the theorems in the dependency cone of its property-level theorems `top` (and of the vacuity
+    witnesses `wit`). The Lean part holds iff every theorem of `top` exists and `#print axioms` shows only the three standard axioms
+    - a failed proof anywhere in the cone shows up as `sorryAx`, a declaration that no longer elaborates as a missing constant.
+    Failures of theorems outside the cone (they belong to other properties) are listed as unrelated and raise no alarm."""
+    clos = [m for m in leanbuild.closure(build_mods) if m.split(".")[0] not in ("Generated", "Baseline", "Tools")]
+    usable = [m for m in clos if res[m].ok or res[m].degraded]
+    thm_mod = {t: m for m in usable for t in theorems_in(m)}
+    import_mods = [m for m in build_mods if m in usable]
+    cones, ax, probe_out = (lean_probe(import_mods, top, wit, list(thm_mod), workdir, tag) if import_mods
+                            else ({"missing": top + wit, "top": [], "wit": []}, {}, ""))
+    missing = set(cones["missing"])
+    rec = load_recorded_cones().get(pid, {})
+    cur_top, cur_wit = set(cones["top"]), set(cones["top"]) | set(cones["wit"])
+    cone_top = set(rec.get("top", [])) | cur_top
+    cone_wit = set(rec.get("witness", [])) | cur_wit
+    failed_by_mod = {m: failed_decls(m, res[m]) for m in clos if not res[m].ok and not res[m].skipped and not res[m].timeout}
+    failed_all = [n for names in failed_by_mod.values() for n in names]
+    timed_out = [m for m in clos if res[m].timeout]
+    clean = lambda t: t in ax and set(ax[t]) <= ALLOWED_AXIOMS  # noqa: E731
+    top_bad = [t for t in top if t in missing or not clean(t)]
+    relevant = [n for n in failed_all if n in cone_top or n in top]
+    # a witness is an alarm only if nothing outside the property's own cone and the witness module is broken in its cone
+    wit_rows, wit_bad = [], []
+    wit_mods = sorted({m for m, n in registry.WITNESSES.get(pid, []) if n in wit})
+    wmod_decls = {n for wm in wit_mods for (_, n) in decl_index(wm)}
+    for t in wit:
+        if t not in missing and clean(t):
+            wit_rows.append({"witness": t, "discharged": True})
+            continue
+        foreign = [n for n in failed_all if n in cone_wit and n not in cone_top and n not in wmod_decls]
+        if foreign or any(wm not in usable for wm in wit_mods):
+            wit_rows.append({"witness": t, "discharged": None,
+                             "note": "not checkable on this run: a declaration outside this property's cone is rejected: " + ", ".join(foreign[:3])})
+        else:
+            wit_rows.append({"witness": t, "discharged": False})
+            wit_bad.append(t)
+            relevant += [n for n in failed_all if n in cone_wit and n not in relevant]
+    obligations = [t for t in thm_mod if t in cone_top or (t in cone_wit and t in wmod_decls and t in wit)]
+    obligations += [t for t in top + wit_bad if t not in obligations]
+    discharged = [t for t in obligations if clean(t) and t not in failed_all]
+    unrelated = [n for n in failed_all if n not in relevant]
+    fns = sorted(n for n in (cone_top | cone_wit) if n.startswith(("Tucan.", "TucanBase.")))
+    detail = []
+    if top_bad or wit_bad:
+        for m, names in failed_by_mod.items():
+            rel = [n for n in names if n in relevant]
+            if rel:
+                detail.append({"module": m, "obligations": rel, "lean_output": res[m].output[:6000]})
+        tainted = [t for t in top_bad + wit_bad if not any(t in d["obligations"] for d in detail)]
+        if tainted:
+            detail.append({"module": "<property-level theorems>", "obligations": tainted,
+                           "lean_output": "; ".join(f"{t}: " + ("does not exist (its statement no longer elaborates)" if t in missing
+                                                    else f"depends on {ax.get(t)}") for t in tainted)})
+    return {"top_bad": top_bad, "wit_bad": wit_bad, "wit_rows": wit_rows, "obligations": obligations, "discharged": discharged,
+            "relevant_failed": relevant, "unrelated_failed": unrelated, "timed_out": timed_out, "axioms": ax, "functions": fns,
+            "detail": detail, "usable": usable, "cone_top_current": sorted(cur_top), "cone_wit_current": sorted(cur_wit),
+            "cone_stale": bool(rec) and not (top_bad or wit_bad or failed_all) and (set(rec.get("top", [])) != cur_top)}
+
+
+def lean_name(key) -> str:
+    return f"Tucan.{key[0].split('.')[-1]}.{key[1]}"
+
+
 # ------------------------------------------------------------------------------------------ equivalence rescue (DESIGN.md §13.7)
-def equivalence_rescue(ex, lean_mods: list[str], tag: str) -> dict:
+def equivalence_rescue(pid: str, ex, lean_mods: list[str], top: list[str], workdir: str) -> dict:
     """The contracts are written against the Lean text generated from the tree they were proved on (snapshot lean/Baseline, namespace
-    TucanBase). When they no longer check for the current tree, try to prove `@Tucan.m.f = @TucanBase.m.f` for every function (and
-    constant) of the Generated modules the contract modules import, and rebuild the contract text against the snapshot
-    (ContractsBase.*). If Lean accepts both, every contract statement holds for the current functions by substitution of equals."""
+    TucanBase). When the property-level theorems no longer check for the current tree: rebuild the contract text against the snapshot
+    (ContractsBase.*), take the extracted functions in the cone of the property-level theorems there, and try to prove
+    `@Tucan.m.f = @TucanBase.m.f` for each of them and everything they call (and the constants). If Lean accepts all of it, every
+    statement in the cone holds for the current functions by substitution of equals."""
     from vlib import baseline
-    gen_in_closure = {m for m in leanbuild.closure(lean_mods) if m.startswith("Generated.")}
-    text, names = baseline.equiv_module(ex, gen_in_closure)
-    mod = "Probe.Equiv_" + tag
+    t = time.time()
+    baseline.contracts_base(leanbuild.LEAN_SRC, lean_mods)
+    base_top = ["ContractsBase." + m.split(".")[-1] for m in lean_mods if m.startswith("Contracts.")] + [m for m in lean_mods if not m.startswith("Contracts.")]
+    res = leanbuild.build(base_top + ["Tools.Cone"], timeout=1800, tolerant=True)
+    lv = lean_verdict(pid, base_top, top, [], res, workdir, pid + "_base")
+    out = {"attempted": True, "succeeded": False, "unproved": [], "results": res, "verdict": lv, "timeout": bool(lv["timed_out"])}
+    if lv["top_bad"]:
+        out["error"] = "the contract text does not check against the snapshot lean/Baseline either (stale snapshot?): " + ", ".join(lv["top_bad"][:4])
+        return out
+    by_lean = {lean_name(k).replace("Tucan.", "TucanBase.", 1): k for k in ex.targets}
+    fn_keys = {by_lean[n] for n in lv["functions"] if n in by_lean}
+    text, names = baseline.equiv_module(ex, None, fn_keys)
+    mod = "Probe.Equiv_" + pid
     os.makedirs(os.path.join(leanbuild.LEAN_SRC, "Probe"), exist_ok=True)
     path = leanbuild.module_path(mod)
     tmp = f"{path}.{os.getpid()}.tmp"
     open(tmp, "w").write(text)
     os.replace(tmp, path)
-    base_mods = baseline.contracts_base(leanbuild.LEAN_SRC, lean_mods)
-    base_top = ["ContractsBase." + m.split(".")[-1] for m in lean_mods if m.startswith("Contracts.")]
-    t = time.time()
-    res = leanbuild.build([mod] + base_top, timeout=1800)
-    r = res[mod]
-    unproved = []
+    res2 = leanbuild.build([mod], timeout=1800)
+    r = res2[mod]
+    res.update(res2)
     if not r.ok:
         lines = text.splitlines()
         for ln in dict.fromkeys(re.findall(r"Equiv_\w+\.lean:(\d+):\d+: error", r.output)):
             i = min(int(ln), len(lines)) - 1
             while i >= 0 and not lines[i].startswith("theorem"):
                 i -= 1
-            if i >= 0 and "Equiv." + lines[i].split()[1] not in unproved:
-                unproved.append("Equiv." + lines[i].split()[1])
-        unproved = unproved or ["<module " + mod + ">"]
-    base_bad = [m for m in res if m.startswith("ContractsBase.") and not res[m].ok]
-    changed = []
-    for g in sorted(gen_in_closure):
-        b = os.path.join(leanbuild.LEAN_SRC, "Baseline", g.split(".")[-1] + ".lean")
-        cur = open(leanbuild.module_path(g)).read()
-        if not os.path.exists(b) or open(b).read() != baseline.rename_to_base(cur):
-            changed.append(g)
-    return {"attempted": True, "succeeded": r.ok and not base_bad, "module": mod, "equalities": names, "unproved": unproved,
-            "baseline_contract_modules_failed": base_bad, "generated_modules_differing_from_baseline": changed,
-            "seconds": round(time.time() - t, 1), "results": res, "lean_output": r.output[:6000],
-            "timeout": bool(getattr(r, "timeout", False))}
+            if i >= 0 and "Equiv." + lines[i].split()[1] not in out["unproved"]:
+                out["unproved"].append("Equiv." + lines[i].split()[1])
+        out["unproved"] = out["unproved"] or ["<module " + mod + ">"]
+        out["timeout"] = out["timeout"] or r.timeout
+    ax = axioms_probe([mod], names, workdir) if r.ok else {}
+    bad_ax = [n for n in names if not set(ax.get(n, ["?"])) <= ALLOWED_AXIOMS] if r.ok else []
+    out.update({"succeeded": r.ok and not bad_ax, "module": mod, "equalities": names, "functions": sorted(lean_name(k) for k in fn_keys),
+                "seconds": round(time.time() - t, 1), "lean_output": r.output[:6000]})
+    return out
+
 
 # ------------------------------------------------------------------------------------------ main check
 def run_check(pid: str, tier: str, seed: int) -> int:
@@ -203,9 +346,29 @@ def run_check(pid: str, tier: str, seed: int) -> int:
     # 1. extraction from the working tree
     gen_dir = os.path.join(leanbuild.LEAN_SRC, "Generated")
     ex = extract_mod.write_generated(gen_dir, REPO)
+
+    # 2. Lean obligations: (error-tolerant) build of the registered contract modules, then the verdict on the property-level theorems
+    lean_mods = [registry.LEAN[k] for k in spec.get("lean", [])]
+    top = list(registry.TOP.get(pid, {}).get("theorems", []))
+    wit_pairs = registry.WITNESSES.get(pid, []) if lean_mods else []
+    wit = [n for _, n in wit_pairs]
+    build_mods = lean_mods + [m for m in dict.fromkeys(m for m, _ in wit_pairs) if m not in lean_mods]
+    gen_needed = sorted({"Generated." + extract_cfg.LEAN_MODULE_NAMES[k[0]] for k in spec["functions"]})
+    res = leanbuild.build(build_mods + gen_needed + (["Tools.Cone"] if lean_mods else []), timeout=1800, tolerant=True)
+    empty = {"top_bad": [], "wit_bad": [], "wit_rows": [], "obligations": [], "discharged": [], "relevant_failed": [], "unrelated_failed": [],
+             "timed_out": [], "axioms": {}, "functions": [], "detail": [], "usable": [], "cone_stale": False}
+    lv = lean_verdict(pid, build_mods, top, wit, res, work, pid) if lean_mods else empty
+    timings = {m: {"seconds": round(r.seconds, 2), "cached": r.cached, "ok": r.ok, **({"degraded": True} if r.degraded else {})} for m, r in res.items()}
+
+    # functions under contract = the extracted functions in the dependency cone of the property-level theorems
+    # (plus, for the frame properties, the registered function set)
+    cone_fn = set(lv["functions"])
+    fn_keys = [k for k in ex.targets if lean_name(k) in cone_fn]
+    if spec.get("frames") == "registered" or not fn_keys:
+        fn_keys += [k for k in spec["functions"] if k not in fn_keys]
     fn_rows = []
     not_generated = []
-    for key in spec["functions"]:
+    for key in fn_keys:
         m = ex.metas.get(key)
         if m is None:
             continue
@@ -220,7 +383,7 @@ def run_check(pid: str, tier: str, seed: int) -> int:
     # (random, clock, igraph, float parsing) of every function under contract equals the recorded frame
     expected_frames = json.load(open(os.path.join(VERIF, "vlib", "frames.json")))
     frame_obl, frame_ok, frame_fail = [], [], []
-    for key in spec["functions"]:
+    for key in fn_keys:
         m = ex.metas.get(key)
         if m is None or m.error:
             continue
@@ -234,48 +397,37 @@ def run_check(pid: str, tier: str, seed: int) -> int:
             frame_fail.append({"module": "<extractor frame analysis>", "obligations": ["frame." + name],
                                "lean_output": f"frame of {name} changed: recorded {expected_frames.get(name)} now {now}"})
 
-    # 2. Lean obligations
-    lean_mods = [registry.LEAN[k] for k in spec.get("lean", [])]
-    gen_needed = sorted({"Generated." + extract_cfg.LEAN_MODULE_NAMES[k[0]] for k in spec["functions"]})
-    res = leanbuild.build(lean_mods + gen_needed, timeout=1800)
-    obligations: list[str] = []
-    discharged: list[str] = []
-    timings = {}
-    lean_fail_detail = []
-    # obligations = every theorem of the registered contract modules and of the project-local lemma
-    # libraries they import (Spec.*, PyModel.*); Generated.* contains definitions only
-    oblig_mods = [m for m in leanbuild.closure(lean_mods) if not m.startswith("Generated")] if lean_mods else []
-    for m in oblig_mods:
-        obligations += theorems_in(m)
-    for m, r in res.items():
-        timings[m] = {"seconds": round(r.seconds, 2), "cached": r.cached, "ok": r.ok}
-        if not r.ok:
-            if getattr(r, "timeout", False):
-                status["undecided"].append(f"{m}: Lean time-out")
-            elif r.skipped:
-                pass
-            else:
-                names = failed_obligations(r)
-                lean_fail_detail.append({"module": m, "obligations": names, "lean_output": r.output[:6000]})
-    # equivalence rescue: contract modules rejected although extraction, frames and the generated modules are fine
+    obligations: list[str] = list(lv["obligations"])
+    discharged: list[str] = list(lv["discharged"])
+    lean_fail_detail = list(lv["detail"])
+    ax = lv["axioms"]
+    wit_rows = lv["wit_rows"]
+    if lv["timed_out"]:
+        status["undecided"] += [f"{m}: Lean time-out" for m in lv["timed_out"]]
+        lean_fail_detail = [d for d in lean_fail_detail if d["module"] != "<property-level theorems>"]
+    # equivalence rescue: the property-level theorems are rejected although extraction, frames and the generated modules are fine
     rescue = {"attempted": False}
-    contract_fail = [d for d in lean_fail_detail if d["module"].startswith("Contracts.")]
-    if (contract_fail and not not_generated and not frame_fail and all(res[m].ok for m in res if m.startswith("Generated."))
+    gen_ok = all(res[m].ok for m in res if m.startswith("Generated."))
+    if (lv["top_bad"] and not lv["timed_out"] and not not_generated and not frame_fail and gen_ok
+            and all(d["module"].startswith("Contracts.") or d["module"] == "<property-level theorems>" for d in lean_fail_detail)
             and os.environ.get("VERIF_NO_RESCUE") != "1"):
         try:
-            rescue = equivalence_rescue(ex, lean_mods, pid)
+            rescue = equivalence_rescue(pid, ex, lean_mods, top, work)
         except Exception as e:  # noqa: BLE001
             rescue = {"attempted": True, "succeeded": False, "unproved": [], "error": "".join(traceback.format_exception_only(type(e), e))[:600]}
         r2 = rescue.pop("results", {})
+        lvb = rescue.pop("verdict", empty)
+        for m, r in r2.items():
+            res[m] = r
+            timings[m] = {"seconds": round(r.seconds, 2), "cached": r.cached, "ok": r.ok}
         if rescue.get("succeeded"):
-            # the obligations of the contract modules are discharged for the snapshot text and carried over by the equalities
-            lean_fail_detail = [d for d in lean_fail_detail if not d["module"].startswith("Contracts.")]
-            to_base = lambda m: "ContractsBase." + m.split(".")[-1] if m.startswith("Contracts.") else m  # noqa: E731
-            oblig_mods = [to_base(m) for m in oblig_mods] + [rescue["module"]]
-            obligations += rescue["equalities"]
-            for m, r in r2.items():
-                res[m] = r
-                timings[m] = {"seconds": round(r.seconds, 2), "cached": r.cached, "ok": r.ok}
+            # the obligations in the cone are discharged for the snapshot text and carried over by the equalities
+            lean_fail_detail = []
+            obligations = list(lvb["obligations"]) + rescue["equalities"]
+            discharged = list(lvb["discharged"]) + rescue["equalities"]
+            ax = lvb["axioms"]
+            wit_rows = [{"witness": t, "discharged": None, "note": "not checked on this run (contracts carried over by the equivalence rescue)"} for t in wit]
+            lv = dict(lvb, unrelated_failed=lv["unrelated_failed"])
         elif rescue.get("timeout"):
             status["undecided"].append("equivalence rescue: Lean time-out")
         elif rescue.get("unproved"):
@@ -284,47 +436,11 @@ def run_check(pid: str, tier: str, seed: int) -> int:
                                                     "equal the snapshot the contracts were proved against\n" + rescue.get("lean_output", "")})
     cov["equivalence_rescue"] = {k: v for k, v in rescue.items() if k not in ("lean_output",)} | (
         {"equalities": len(rescue["equalities"])} if rescue.get("equalities") else {})
-    ok_mods = [m for m in oblig_mods if m in res and res[m].ok]
-    thms_ok = [t for m in ok_mods for t in theorems_in(m)]
-    ax = axioms_probe(ok_mods, thms_ok, work) if thms_ok else {}
-    allowed = {"propext", "Classical.choice", "Quot.sound"}
-    for t in thms_ok:
-        if set(ax.get(t, ["?"])) <= allowed:
-            discharged.append(t)
-        else:
-            lean_fail_detail.append({"module": "<axioms>", "obligations": [t], "lean_output": f"{t} depends on {ax.get(t)}"})
-    # vacuity guards (lean/Contracts/Witness.lean): concrete instances satisfying every hypothesis of the property-level theorems
-    wit_names = registry.WITNESSES.get(pid, [])
-    wit_rows = []
-    if wit_names and lean_mods and not rescue.get("attempted") and not lean_fail_detail:
-        wres = leanbuild.build([registry.WITNESS_MODULE], timeout=1800)
-        wr = wres[registry.WITNESS_MODULE]
-        timings[registry.WITNESS_MODULE] = {"seconds": round(wr.seconds, 2), "cached": wr.cached, "ok": wr.ok}
-        if wr.ok:
-            wax = axioms_probe([registry.WITNESS_MODULE], wit_names, work)
-            for t in wit_names:
-                obligations.append(t)
-                good = set(wax.get(t, ["?"])) <= allowed
-                wit_rows.append({"witness": t, "discharged": good})
-                if good:
-                    discharged.append(t)
-                else:
-                    lean_fail_detail.append({"module": "<axioms>", "obligations": [t], "lean_output": f"{t} depends on {wax.get(t)}"})
-        elif wr.skipped or any(r.skipped or not r.ok for m, r in wres.items() if m != registry.WITNESS_MODULE):
-            # a contract module of another property is rejected: the witnesses cannot be checked on this run (not this property's alarm)
-            wit_rows = [{"witness": t, "discharged": None, "note": "not checked: a module outside this property's closure is rejected"} for t in wit_names]
-        elif getattr(wr, "timeout", False):
-            status["undecided"].append("Contracts.Witness: Lean time-out")
-        else:
-            bad = failed_obligations(wr)
-            for t in wit_names:
-                obligations.append(t)
-                if t.split(".")[-1] in bad:
-                    wit_rows.append({"witness": t, "discharged": False})
-                    lean_fail_detail.append({"module": registry.WITNESS_MODULE, "obligations": [t], "lean_output": wr.output[:4000]})
-                else:
-                    wit_rows.append({"witness": t, "discharged": None, "note": "module rejected at another theorem"})
-                    obligations.pop()
+    cov["obligations_outside_the_cone_rejected"] = lv["unrelated_failed"]
+    cov["recorded_cone_stale"] = lv.get("cone_stale", False)
+    ok_mods = [m for m in lv["usable"] if res[m].ok]
+    thms_ok = [t for t in obligations if t in ax]
+    allowed = ALLOWED_AXIOMS
     cov["vacuity_witnesses"] = wit_rows
     scan = source_scan(lean_mods) if lean_mods else []
     if scan:
@@ -357,7 +473,7 @@ def run_check(pid: str, tier: str, seed: int) -> int:
         else:
             lean_fail_detail.append({"module": "<syntactic back end>", "obligations": [x["obligation"]], "lean_output": x["detail"]})
     # constant call depth (C15): the call graph of the extracted functions has no cycle
-    acyclic = call_graph_acyclic(ex)
+    acyclic = call_graph_acyclic(ex, fn_keys if pid == "C15" else None)
     if pid == "C15":
         obligations.append("callgraph.acyclic")
         if acyclic:
@@ -369,8 +485,10 @@ def run_check(pid: str, tier: str, seed: int) -> int:
         lean_fail_detail.append({"module": "<extractor>", "obligations": ["extract." + x.split(":")[0] for x in not_generated],
                                  "lean_output": "obligation could not be generated: " + "; ".join(not_generated)})
     for m in gen_needed:
-        if not res[m].ok and not res[m].skipped:
-            pass  # already recorded through lean_fail_detail
+        if not res[m].ok and not res[m].skipped and not res[m].timeout:
+            bad = [n for n in failed_decls(m, res[m]) if n in cone_fn or not cone_fn or n.startswith("<")]
+            if bad:
+                lean_fail_detail.append({"module": m, "obligations": bad, "lean_output": res[m].output[:4000]})
     cov["obligations"] = len(obligations)
     cov["discharged"] = len(discharged)
     cov["obligation_names"] = obligations
@@ -544,7 +662,8 @@ def run_check(pid: str, tier: str, seed: int) -> int:
     return exit_code
 
 
-def call_graph_acyclic(ex) -> bool:
+def call_graph_acyclic(ex, keys=None) -> bool:
+    """no function reachable from `keys` (default: all extracted functions) calls itself directly or indirectly"""
     color = {}
 
     def visit(k):
@@ -558,7 +677,7 @@ def call_graph_acyclic(ex) -> bool:
                 return False
         color[k] = 2
         return True
-    return all(visit(k) for k in ex.targets)
+    return all(visit(k) for k in (keys if keys is not None else ex.targets))
 
 
 def explanation(pid, spec, obligations, discharged, b_rows, proved_all, level="other", top=None) -> str:
@@ -594,6 +713,35 @@ def replay(pid: str, path: str) -> int:
     return 0
 
 
+def record_cones() -> int:
+    """write vlib/cones.json: per property the dependency cones of its property-level theorems and of its witnesses on the current
+    (unchanged) tree. The record is only used to attribute failures when a cone cannot be computed because a theorem is missing."""
+    extract_mod.write_generated(os.path.join(leanbuild.LEAN_SRC, "Generated"), REPO)
+    out = {}
+    work = os.path.join(leanbuild.BUILD, "work")
+    for pid, spec in registry.PROPS.items():
+        lean_mods = [registry.LEAN[k] for k in spec.get("lean", [])]
+        if not lean_mods:
+            continue
+        top = list(registry.TOP.get(pid, {}).get("theorems", []))
+        wit_pairs = registry.WITNESSES.get(pid, [])
+        wit = [n for _, n in wit_pairs]
+        build_mods = lean_mods + [m for m in dict.fromkeys(m for m, _ in wit_pairs) if m not in lean_mods]
+        res = leanbuild.build(build_mods + ["Tools.Cone"], timeout=1800)
+        bad = [m for m, r in res.items() if not r.ok]
+        if bad:
+            print("cannot record cones:", pid, bad)
+            return 1
+        cones, _, _ = lean_probe(build_mods, top, wit, [], work, pid + "_rec")
+        if cones["missing"] or not cones["top"]:
+            print("cannot record cones: missing", pid, cones["missing"])
+            return 1
+        out[pid] = {"top": sorted(cones["top"]), "witness": sorted(set(cones["top"]) | set(cones["wit"]))}
+        print(pid, len(out[pid]["top"]), len(out[pid]["witness"]))
+    json.dump(out, open(os.path.join(VERIF, "vlib", "cones.json"), "w"), indent=0, sort_keys=True)
+    return 0
+
+
 def main():
     ap = argparse.ArgumentParser()
     ap.add_argument("property")
@@ -601,6 +749,8 @@ def main():
     ap.add_argument("--replay")
     a = ap.parse_args()
     seed = int(os.environ.get("VERIF_SEED", "1"))
+    if a.property == "record-cones":
+        return record_cones()
     try:
         if a.replay:
             return replay(a.property, a.replay)
